@@ -39,6 +39,8 @@ def main():
         if getattr(module, 'NEEDS_LEMMAS', True):
             from harness import lemmas
             lemmas.prove(res, names=getattr(module, 'LEMMAS', None), seed=seed, log=F.log)
+        if hasattr(module, 'pre'):
+            module.pre(res, a.tier)
         us = [u for u in module.units(a.tier) if not a.unit or u.name in a.unit]
         F.run_units(res, module, us, nproc=a.nproc, budget_s=getattr(module, 'BUDGET_S', {}).get(a.tier))
         if hasattr(module, 'post'):
